@@ -10648,11 +10648,17 @@ impl<'a> Parser<'a> {
         let mut on_empty = None;
         let mut on_error = None;
         while let Some(error_handling) = self.parse_json_table_column_error_handling()? {
-            if self.parse_keyword(Keyword::EMPTY) {
+            // each of the two clauses at most once: a repetition would replace the first
+            if on_empty.is_none() && self.parse_keyword(Keyword::EMPTY) {
                 on_empty = Some(error_handling);
-            } else {
+            } else if on_error.is_none() {
                 self.expect_keyword(Keyword::ERROR)?;
                 on_error = Some(error_handling);
+            } else {
+                return self.expected(
+                    "at most one ON EMPTY and one ON ERROR clause",
+                    self.peek_token(),
+                );
             }
         }
         Ok(JsonTableColumn {
